@@ -176,7 +176,9 @@ def run(tier, seed):
     for v in [True, False]:
         add(F.BooleanField('x', lambda s, i, v: None), v)
     texts = ['', 'x', 'two words', "O'Neil (Jr.)", '100% sure', '%(x)s', 'a = b', 'a: b', '#notcomment', ';semi', 'tab\tinside', '[brackets]',
-             'UPPER lower', 'trailing ', ' leading', 'x' * 300, 'multi\nline', 'multi\n  indented', 'multi\n#hash', 'multi\n;semi', 'multi\n\nblank', 'ends with colon:', '"quoted"', 'é']
+             'UPPER lower', 'trailing ', ' leading', 'x' * 300, 'multi\nline', 'multi\n  indented', 'multi\n#hash', 'multi\n;semi', 'multi\n\nblank', 'ends with colon:', '"quoted"', 'é',
+             # words that other layers give a meaning: the text of a Python constant, of a boolean answer, of a number
+             'None', 'none', 'True', 'False', 'yes', 'no', 'nan', 'inf', '0', '0.00', '-0.0', '1e5', 'null', "''", '\\', '\\n', '${x}', '2023']
     for v in texts:
         add(F.StringField('x', lambda s, i, v: None), v)
     enums = gen_forms.Enums(H['enum'])
